@@ -197,7 +197,7 @@ impl Cfg {
             "b_factor": [self.b_factor_l, self.b_factor_s], "b_exp": [self.b_exp_l, self.b_exp_s],
             "b_skip": self.b_skip, "k_opt": self.k_opt, "k_base": self.k_base, "k_above": self.k_above,
             "oi_reserve": self.oi_reserve, "max_oi": self.max_oi, "ignore_oi": self.ignore_oi,
-            "min_size": self.min_size, "adj": self.adj,
+            "min_size": self.min_size, "adj": self.adj, "l_factor": self.l_factor, "l_recv": self.l_recv,
         })
     }
 
